@@ -390,6 +390,15 @@ where
         )
     }
 
+    /// Verification hook, compiled only with `--cfg poster_verif`: records that the previous
+    /// connection was lost `secs_ago` seconds ago, the way a reconnecting application would.
+    ///
+    #[cfg(poster_verif)]
+    pub fn verif_mark_disconnected(&mut self, secs_ago: u64) {
+        self.connection.disconnection_timestamp =
+            SystemTime::now().checked_sub(std::time::Duration::from_secs(secs_ago));
+    }
+
     /// Sets up communication primitives for the context. This is the first method
     /// to call when starting the connection with the broker.
     ///
